@@ -268,7 +268,7 @@ def shrink(ctx, case_line, differs):
     return cur
 
 
-def compare(ctx, rows, proj, what, oracle=None, nontrivial=None, max_report=3):
+def compare(ctx, rows, proj, what, oracle=None, nontrivial=None, max_report=3, oracle_is_property=False):
     """diff projected results; group disagreements by operator; shrink and report.
     `proj(resdict) -> comparable`, `oracle(case_line, go_resdict) -> None | message`."""
     bad = {}
@@ -303,7 +303,7 @@ def compare(ctx, rows, proj, what, oracle=None, nontrivial=None, max_report=3):
         # with a direct oracle for the property: the disagreement is a concrete failing input only if the
         # implementation's own result violates the property on it; otherwise the correspondence is broken
         # but no failing input was found
-        holds = oracle is not None and oracle(small, parse_res(sg)) is None
+        holds = oracle_is_property and oracle is not None and oracle(small, parse_res(sg)) is None
         ctx.violation(f'{what}: implementation and model disagree for {op} ({len(lst)} cases)',
                       f'# {what}: implementation differs from the Lean model (which is proved equal to the specification)\n'
                       f'{small}\n# implementation: {sg}\n# model/spec:     {sl}\n# replay: ./check {ctx.prop} --replay <this file>\n' +
